@@ -29,7 +29,7 @@ that keeps its parent overwrites the entry of the original.
 `unpickle ∘ pickle` (mode `pickle`) is the same traversal with the differences the `__getstate__/__setstate__` methods make:
 `_parent` of the root is dropped, procedure links are dropped (`ProcedureType.__getstate__`) and re-created only for contained
 units, `typedef` links are followed by pickle (so they end at the copy), symbols lose their scope (`__getinitargs__` stores `None`)
-and are re-attached by `rescope_symbols` — and `Subroutine.__setstate__` does not reset the parent of its member procedures.
+and are re-attached by `rescope_symbols`; `Module.__setstate__` and `Subroutine.__setstate__` reset the parent of their contained units.
 -/
 namespace LokiModel.C17
 
@@ -151,8 +151,10 @@ def rescope (m : Mode) (h : Heap) (chain : List Addr) (s : Sym) : Sym :=
   | some sc => { s with scope := some sc }
   | none => if m.pickle then { s with scope := none } else s
 
+/-- ghost: some symbol is declared by no scope of the new chain — in clone mode one that was attached (it keeps a scope of the
+original), in pickle mode any (it stays unattached) -/
 def unresolved (m : Mode) (h : Heap) (chain : List Addr) (syms : List Sym) : Bool :=
-  !m.pickle && syms.any fun s => s.scope.isSome && (resolve h chain s.name).isNone
+  syms.any fun s => (s.scope.isSome || m.pickle) && (resolve h chain s.name).isNone
 
 /-- thread a heap through a list of addresses -/
 def thread (step : Heap → Addr → Heap × Addr) : Heap → List Addr → Heap × List Addr
@@ -198,34 +200,32 @@ def register (h : Heap) (parent : Option Addr) (name : String) (u : Addr) : Heap
     | none => h
 
 /-- `ProgramUnit.clone(parent=…)` / unpickling of one program unit.  `parent` is the new unit's parent scope
-(`keep`: the clone keeps `self.parent`; contained units get the new enclosing unit).
-`lostParent`: unpickling a `Subroutine` does not re-attach its members to it. -/
-def copyUnit (m : Mode) : Nat → Heap → (parent : Option Addr) → (hostIsSub : Bool) → Addr → Heap × Addr
-  | 0, h, _, _, _ => h.alloc m.tag (.node "" none [] [])
-  | f + 1, h, parent, hostIsSub, u =>
+(`keep`: the clone keeps `self.parent`; contained units get the new enclosing unit — on unpickling through
+`Module.__setstate__` / `Subroutine.__setstate__`, which `_reset_parent` and re-register their contained units). -/
+def copyUnit (m : Mode) : Nat → Heap → (parent : Option Addr) → Addr → Heap × Addr
+  | 0, h, _, _ => h.alloc m.tag (.node "" none [] [])
+  | f + 1, h, parent, u =>
     match h.get u with
     | some (.unit isMod name _ t secs mems) =>
-      -- member of an unpickled subroutine: `_parent` is not in the state and nobody resets it
-      let parent' := if m.pickle && hostIsSub then none else parent
-      let r1 := h.alloc m.tag (.tab (parent'.bind (tabOf h)) (copyEnts m (entsOf h t)))
-      let r2 := r1.1.alloc m.tag (.unit isMod name parent' r1.2 [] [])
-      let chain := r2.2 :: chainOf (f + 1) r2.1 parent'
+      let r1 := h.alloc m.tag (.tab (parent.bind (tabOf h)) (copyEnts m (entsOf h t)))
+      let r2 := r1.1.alloc m.tag (.unit isMod name parent r1.2 [] [])
+      let chain := r2.2 :: chainOf (f + 1) r2.1 parent
       -- contained program units first: they register themselves in the new table
-      let r3 := thread (fun h k => copyUnit m f h (some r2.2) (!isMod) k) r2.1 mems
+      let r3 := thread (fun h k => copyUnit m f h (some r2.2) k) r2.1 mems
       let r4 := thread (fun h k => copyNode m (f + 1) h chain k) r3.1 secs
-      let h5 := r4.1.set r2.2 (.unit isMod name parent' r1.2 r4.2 r3.2)
+      let h5 := r4.1.set r2.2 (.unit isMod name parent r1.2 r4.2 r3.2)
       -- register_in_parent_scope (also done by `__setstate__` of the enclosing unit for its members)
-      (register h5 (if m.pickle && hostIsSub then parent else parent') name r2.2, r2.2)
+      (register h5 parent name r2.2, r2.2)
     | _ => h.alloc m.tag (.node "" none [] [])
 
 def cloneMode : Mode := ⟨2, false⟩
 def pickleMode : Mode := ⟨2, true⟩
 
 /-- `unit.clone()` (the clone keeps the parent of the original) -/
-def clone (f : Nat) (h : Heap) (u : Addr) : Heap × Addr := copyUnit cloneMode f h (parOf h u) false u
+def clone (f : Nat) (h : Heap) (u : Addr) : Heap × Addr := copyUnit cloneMode f h (parOf h u) u
 
 /-- `pickle.loads(pickle.dumps(unit))` -/
-def unpickle (f : Nat) (h : Heap) (u : Addr) : Heap × Addr := copyUnit pickleMode f h none false u
+def unpickle (f : Nat) (h : Heap) (u : Addr) : Heap × Addr := copyUnit pickleMode f h none u
 
 /-! ## edit operations on one side -/
 
